@@ -208,10 +208,23 @@ func mkULID(ms uint64, n int) ulid.ULID {
 
 const deleteDelay = 48 * time.Hour
 
+// one block directory of a scenario, as the model sees it
+type bdesc struct {
+	id      ulid.ULID
+	stream  string
+	sources []ulid.ULID
+	meta    string // MOk | MMissing | MCorrupt | MBadVersion
+	del     string // DNone | (DOk hide clean) | DCorrupt | DBadVersion
+	noc     string // NNone | NOk | NCorrupt | NBadVersion
+	real    bool
+}
+
 type scenario struct {
 	objects map[string][]byte
 	corrupt map[string]bool // object names holding garbage
 	badver  map[string]bool
+	blocks  []*bdesc
+	num     map[ulid.ULID]int64 // rank of the ULID (ULID.Compare order), used as the model's block id
 }
 
 func metaOnly(id ulid.ULID, stream string, mint, maxt int64, sources []ulid.ULID, version int) []byte {
@@ -231,26 +244,59 @@ func metaOnly(id ulid.ULID, stream string, mint, maxt int64, sources []ulid.ULID
 	return b
 }
 
-func build(in input) *scenario {
-	sc := &scenario{objects: map[string][]byte{}, corrupt: map[string]bool{}, badver: map[string]bool{}}
+func build(in input) (*scenario, error) {
+	sc := &scenario{objects: map[string][]byte{}, corrupt: map[string]bool{}, badver: map[string]bool{}, num: map[ulid.ULID]int64{}}
 	for k, v := range tmpl {
 		sc.objects[k] = v
+		if strings.HasSuffix(k, "/meta.json") {
+			var m metadata.Meta
+			if err := json.Unmarshal(v, &m); err != nil {
+				return nil, err
+			}
+			sc.blocks = append(sc.blocks, &bdesc{id: m.ULID, stream: "real", sources: m.Compaction.Sources, meta: "MOk", del: "DNone", noc: "NNone", real: true})
+		}
 	}
 	n := 0
 	next := func() ulid.ULID { n++; return mkULID(uint64(5000+n), n) }
 	put := func(name string, b []byte) { sc.objects[name] = b }
+	add := func(d *bdesc) *bdesc {
+		if d.del == "" {
+			d.del = "DNone"
+		}
+		if d.noc == "" {
+			d.noc = "NNone"
+		}
+		if d.sources == nil {
+			d.sources = []ulid.ULID{d.id}
+		}
+		sc.blocks = append(sc.blocks, d)
+		return d
+	}
 	now := time.Now().Unix()
+	delMark := func(id ulid.ULID, age int64, version int) {
+		dm, _ := json.Marshal(metadata.DeletionMark{ID: id, Version: version, DeletionTime: now - age})
+		put(path.Join(id.String(), metadata.DeletionMarkFilename), dm)
+	}
 	for i := 0; i < in.OldMarked; i++ {
 		id := next()
-		put(path.Join(id.String(), "meta.json"), metaOnly(id, fmt.Sprintf("old%d", i), 0, 1000, nil, 1))
-		dm, _ := json.Marshal(metadata.DeletionMark{ID: id, Version: 1, DeletionTime: now - int64(deleteDelay/time.Second) - 1000})
-		put(path.Join(id.String(), metadata.DeletionMarkFilename), dm)
+		st := fmt.Sprintf("old%d", i)
+		put(path.Join(id.String(), "meta.json"), metaOnly(id, st, 0, 1000, nil, 1))
+		delMark(id, int64(deleteDelay/time.Second)+1000, 1)
+		add(&bdesc{id: id, stream: st, meta: "MOk", del: "(DOk true true)"})
+	}
+	for i := 0; i < in.MidMarked; i++ { // hidden from the compactor's view (older than delay/2), not yet deletable
+		id := next()
+		st := fmt.Sprintf("mid%d", i)
+		put(path.Join(id.String(), "meta.json"), metaOnly(id, st, 0, 1000, nil, 1))
+		delMark(id, int64(deleteDelay/time.Second)*3/4, 1)
+		add(&bdesc{id: id, stream: st, meta: "MOk", del: "(DOk true false)"})
 	}
 	for i := 0; i < in.RecentMarked; i++ {
 		id := next()
-		put(path.Join(id.String(), "meta.json"), metaOnly(id, fmt.Sprintf("recent%d", i), 0, 1000, nil, 1))
-		dm, _ := json.Marshal(metadata.DeletionMark{ID: id, Version: 1, DeletionTime: now - 60})
-		put(path.Join(id.String(), metadata.DeletionMarkFilename), dm)
+		st := fmt.Sprintf("recent%d", i)
+		put(path.Join(id.String(), "meta.json"), metaOnly(id, st, 0, 1000, nil, 1))
+		delMark(id, 60, 1)
+		add(&bdesc{id: id, stream: st, meta: "MOk", del: "(DOk false false)"})
 	}
 	if in.Duplicates > 0 {
 		// one compacted block and the blocks it was built from (same stream): the sources are garbage
@@ -260,32 +306,47 @@ func build(in input) *scenario {
 			srcs = append(srcs, next())
 		}
 		put(path.Join(parent.String(), "meta.json"), metaOnly(parent, "dup", 0, int64(1000*len(srcs)), srcs, 1))
+		add(&bdesc{id: parent, stream: "dup", sources: srcs, meta: "MOk"})
 		for i, s := range srcs {
 			put(path.Join(s.String(), "meta.json"), metaOnly(s, "dup", int64(1000*i), int64(1000*(i+1)), nil, 1))
+			d := add(&bdesc{id: s, stream: "dup", meta: "MOk"})
+			if in.DupRecentMarked && i == 0 { // a duplicate that is already marked: not marked again
+				delMark(s, 60, 1)
+				d.del = "(DOk false false)"
+			}
 		}
 	}
 	for i := 0; i < in.NoCompact; i++ {
 		id := next()
-		put(path.Join(id.String(), "meta.json"), metaOnly(id, fmt.Sprintf("nc%d", i), 0, 1000, nil, 1))
+		st := fmt.Sprintf("nc%d", i)
+		put(path.Join(id.String(), "meta.json"), metaOnly(id, st, 0, 1000, nil, 1))
 		nm, _ := json.Marshal(metadata.NoCompactMark{ID: id, Version: 1, Reason: metadata.ManualNoCompactReason})
 		put(path.Join(id.String(), metadata.NoCompactMarkFilename), nm)
+		add(&bdesc{id: id, stream: st, meta: "MOk", noc: "NOk"})
 	}
 	for i := 0; i < in.Partial; i++ {
 		id := next()
 		put(path.Join(id.String(), "chunks", "000001"), []byte("x"))
+		add(&bdesc{id: id, stream: "partial", meta: "MMissing"})
 	}
 	for i := 0; i < in.CorruptMeta; i++ {
 		id := next()
 		name := path.Join(id.String(), "meta.json")
 		put(name, []byte("{not json"))
 		sc.corrupt[name] = true
+		add(&bdesc{id: id, stream: "corrupt", meta: "MCorrupt"})
 	}
 	for i := 0; i < in.CorruptMark; i++ {
 		id := next()
-		put(path.Join(id.String(), "meta.json"), metaOnly(id, fmt.Sprintf("cm%d", i), 0, 1000, nil, 1))
+		st := fmt.Sprintf("cm%d", i)
+		put(path.Join(id.String(), "meta.json"), metaOnly(id, st, 0, 1000, nil, 1))
+		d := add(&bdesc{id: id, stream: st, meta: "MOk"})
 		name := path.Join(id.String(), metadata.DeletionMarkFilename)
 		if i%2 == 1 {
 			name = path.Join(id.String(), metadata.NoCompactMarkFilename)
+			d.noc = "NCorrupt"
+		} else {
+			d.del = "DCorrupt"
 		}
 		put(name, []byte("{not json"))
 		sc.corrupt[name] = true
@@ -295,15 +356,64 @@ func build(in input) *scenario {
 		name := path.Join(id.String(), "meta.json")
 		put(name, metaOnly(id, "badver", 0, 1000, nil, 9))
 		sc.badver[name] = true
+		add(&bdesc{id: id, stream: "badver", meta: "MBadVersion"})
 	}
-	return sc
+	if in.BadMarkVersion > 0 {
+		id := next()
+		put(path.Join(id.String(), "meta.json"), metaOnly(id, "badmark", 0, 1000, nil, 1))
+		d := add(&bdesc{id: id, stream: "badmark", meta: "MOk"})
+		if in.BadMarkVersion == 1 {
+			delMark(id, 60, 9)
+			d.del = "DBadVersion"
+			sc.badver[path.Join(id.String(), metadata.DeletionMarkFilename)] = true
+		} else {
+			nm, _ := json.Marshal(metadata.NoCompactMark{ID: id, Version: 9, Reason: metadata.ManualNoCompactReason})
+			put(path.Join(id.String(), metadata.NoCompactMarkFilename), nm)
+			d.noc = "NBadVersion"
+			sc.badver[path.Join(id.String(), metadata.NoCompactMarkFilename)] = true
+		}
+	}
+	// model ids: rank of the ULID among all ULIDs of the scenario
+	var all []ulid.ULID
+	seen := map[ulid.ULID]bool{}
+	for _, d := range sc.blocks {
+		for _, u := range append([]ulid.ULID{d.id}, d.sources...) {
+			if !seen[u] {
+				seen[u] = true
+				all = append(all, u)
+			}
+		}
+	}
+	sort.Slice(all, func(i, j int) bool { return all[i].Compare(all[j]) < 0 })
+	for i, u := range all {
+		sc.num[u] = int64(i + 1)
+	}
+	sort.Slice(sc.blocks, func(i, j int) bool { return sc.blocks[i].id.Compare(sc.blocks[j].id) < 0 })
+	return sc, nil
+}
+
+func (sc *scenario) coq() string {
+	streams := map[string]int64{}
+	var xs []string
+	for _, d := range sc.blocks {
+		if _, ok := streams[d.stream]; !ok {
+			streams[d.stream] = int64(len(streams))
+		}
+		var ss []int64
+		for _, u := range d.sources {
+			ss = append(ss, sc.num[u])
+		}
+		xs = append(xs, common.App("mk_bs", common.Z(sc.num[d.id]), common.Z(streams[d.stream]), common.ZList(ss), d.meta, d.del, d.noc))
+	}
+	return common.List(xs)
 }
 
 type pipeline struct {
-	bkt  *cu.RecBucket
-	sy   *compact.Syncer
-	comp *compact.BucketCompactor
-	dir  string
+	bkt   *cu.RecBucket
+	inmem *objstore.InMemBucket
+	sy    *compact.Syncer
+	comp  *compact.BucketCompactor
+	dir   string
 }
 
 func newPipeline(in input, sc *scenario) (*pipeline, error) {
@@ -353,7 +463,7 @@ func newPipeline(in input, sc *scenario) (*pipeline, error) {
 	if err != nil {
 		return nil, err
 	}
-	return &pipeline{bkt: bkt, sy: sy, comp: bc, dir: dir}, nil
+	return &pipeline{bkt: bkt, inmem: inmem, sy: sy, comp: bc, dir: dir}, nil
 }
 
 func (p *pipeline) close() { os.RemoveAll(p.dir) }
@@ -389,6 +499,33 @@ func outcomeOf(op cu.Op, sc *scenario) string {
 	return "Found"
 }
 
+// the model's identifier of a read (rid), "" if the read is none of the sync's
+func (sc *scenario) ridOf(op cu.Op) string {
+	if op.Kind == "iter" && op.Name == "" {
+		return "RList"
+	}
+	parts := strings.Split(op.Name, "/")
+	u, err := ulid.Parse(parts[0])
+	if err != nil || len(parts) != 2 {
+		return ""
+	}
+	n, ok := sc.num[u]
+	if !ok {
+		return ""
+	}
+	switch {
+	case op.Kind == "exists" && parts[1] == "meta.json":
+		return common.App("RExists", common.Z(n))
+	case op.Kind == "get" && parts[1] == "meta.json":
+		return common.App("RMeta", common.Z(n))
+	case op.Kind == "get" && parts[1] == metadata.DeletionMarkFilename:
+		return common.App("RDel", common.Z(n))
+	case op.Kind == "get" && parts[1] == metadata.NoCompactMarkFilename:
+		return common.App("RNoc", common.Z(n))
+	}
+	return ""
+}
+
 func traceOf(ops []cu.Op, sc *scenario) (string, int) {
 	var xs []string
 	mut := 0
@@ -414,6 +551,17 @@ func mutAfterFault(ops []cu.Op) (n int, names []string) {
 		}
 	}
 	return
+}
+
+func (sc *scenario) idList(m map[ulid.ULID]bool) string {
+	var xs []int64
+	for u := range m {
+		if n, ok := sc.num[u]; ok {
+			xs = append(xs, n)
+		}
+	}
+	sort.Slice(xs, func(i, j int) bool { return xs[i] < xs[j] })
+	return common.ZList(xs)
 }
 
 func listerStress(n int) error {
@@ -454,24 +602,48 @@ func run(raw json.RawMessage) (common.Case, error) {
 	}
 	var c common.Case
 	ctx := context.Background()
-	sc := build(in)
-
+	sc, err := build(in)
+	if err != nil {
+		return c, err
+	}
 	if in.StressBlocks > 0 {
 		if err := listerStress(in.StressBlocks); err != nil {
 			return c, err
 		}
 	}
 
-	// 1. a stand-alone sync on the intact bucket: its reads, and whether it fails by itself
+	// 1. a stand-alone sync on the intact bucket: its reads, the view, whether it fails by itself
 	p, err := newPipeline(in, sc)
 	if err != nil {
 		return c, err
 	}
 	syncErr := p.sy.SyncMetas(ctx)
 	baseOps := p.bkt.Ops()
-	nreads := p.bkt.Reads()
+	metas, partial := map[ulid.ULID]bool{}, map[ulid.ULID]bool{}
+	for u := range p.sy.Metas() {
+		metas[u] = true
+	}
+	for u := range p.sy.Partial() {
+		partial[u] = true
+	}
 	p.close()
 	baseTrace, baseMut := traceOf(baseOps, sc)
+	// the distinct reads of the sync, as the model names them
+	var rids []string
+	ridOp := map[string]cu.Op{}
+	for _, op := range baseOps {
+		if op.Mutating() {
+			continue
+		}
+		r := sc.ridOf(op)
+		if r == "" {
+			return c, fmt.Errorf("a sync read the model does not know: %s %s", op.Kind, op.Name)
+		}
+		if _, dup := ridOp[r]; !dup {
+			ridOp[r] = op
+			rids = append(rids, r)
+		}
+	}
 
 	// 2. a full compactor iteration without faults (what a complete view leads to)
 	p, err = newPipeline(in, sc)
@@ -480,63 +652,83 @@ func run(raw json.RawMessage) (common.Case, error) {
 	}
 	fullErr := p.comp.Compact(ctx)
 	fullMut := 0
+	deleted, gcMarked := map[ulid.ULID]bool{}, map[ulid.ULID]bool{}
 	for _, op := range p.bkt.Ops() {
 		if op.Mutating() {
 			fullMut++
 		}
 	}
+	for _, d := range sc.blocks {
+		if d.real {
+			continue
+		}
+		left, err := hasObjects(p.inmem, d.id.String())
+		if err != nil {
+			return c, err
+		}
+		if !left {
+			deleted[d.id] = true
+			continue
+		}
+		name := path.Join(d.id.String(), metadata.DeletionMarkFilename)
+		if _, had := sc.objects[name]; !had {
+			if ok, _ := p.inmem.Exists(ctx, name); ok {
+				gcMarked[d.id] = true
+			}
+		}
+	}
 	p.close()
 
-	// 3. the same iteration with the k-th read failing, for every k of the first sync
-	ks := make([]int, nreads)
-	for i := range ks {
-		ks[i] = i
-	}
-	if in.MaxFaults > 0 && in.MaxFaults < nreads {
+	// 3. the same iteration with one read of the first sync failing, for every such read
+	if in.MaxFaults > 0 && in.MaxFaults < len(rids) {
 		r := rand.New(rand.NewSource(in.FaultSeed))
-		r.Shuffle(len(ks), func(i, j int) { ks[i], ks[j] = ks[j], ks[i] })
-		ks = ks[:in.MaxFaults]
+		r.Shuffle(len(rids), func(i, j int) { rids[i], rids[j] = rids[j], rids[i] })
+		rids = rids[:in.MaxFaults]
 	}
 	var runs []string
 	var obs []any
 	kinds := map[string]int{}
-	for _, k := range ks {
+	for _, r := range rids {
+		victim := ridOp[r]
 		p, err := newPipeline(in, sc)
 		if err != nil {
 			return c, err
 		}
-		p.bkt.FailRead = k
+		p.bkt.FailName = func(kind, name string) bool { return kind == victim.Kind && name == victim.Name }
 		cerr := p.comp.Compact(ctx)
 		ops := p.bkt.Ops()
 		p.close()
-		tr, _ := traceOf(ops, sc)
 		after, names := mutAfterFault(ops)
-		failedKind := ""
-		for _, op := range ops {
-			if op.Failed {
-				failedKind = kindOf(op) + " " + op.Kind
-			}
-		}
-		kinds[failedKind]++
-		runs = append(runs, common.Tuple(tr, common.Bool(cerr != nil), common.Nat(after)))
+		fk := kindOf(victim) + " " + victim.Kind
+		kinds[fk]++
+		runs = append(runs, common.Tuple(r, common.Bool(cerr != nil), common.Nat(after)))
 		if after > 0 && c.GoPred == "" {
-			c.GoPred = fmt.Sprintf("read #%d of the sync (%s) failed, yet the compactor afterwards issued %d mutating bucket operation(s): %s", k, failedKind, after, strings.Join(names, ", "))
+			c.GoPred = fmt.Sprintf("read %s %q of the sync failed, yet the compactor afterwards issued %d mutating bucket operation(s): %s", victim.Kind, victim.Name, after, strings.Join(names, ", "))
 			c.Sig = "writes-after-failed-sync"
 		}
-		if cerr == nil && failedKind != "" && c.GoPred == "" {
-			c.GoPred = fmt.Sprintf("read #%d of the sync (%s) failed but Compact returned no error", k, failedKind)
+		if cerr == nil && c.GoPred == "" {
+			c.GoPred = fmt.Sprintf("read %s %q of the sync failed but Compact returned no error", victim.Kind, victim.Name)
 			c.Sig = "failed-read-swallowed"
 		}
 		if len(obs) < 4 {
-			obs = append(obs, map[string]any{"failed_read": k, "kind": failedKind, "compact_error": cerr != nil, "mutating_ops_after_fault": after})
+			obs = append(obs, map[string]any{"failed_read": victim.Kind + " " + victim.Name, "compact_error": cerr != nil, "mutating_ops_after_fault": after})
 		}
 	}
-	c.Obs = map[string]any{"sync_reads": nreads, "sync_fails_by_itself": syncErr != nil, "mutating_ops_on_complete_view": fullMut,
-		"complete_view_error": fmt.Sprint(fullErr), "fault_kinds": kinds, "sample_runs": obs}
+	c.Obs = map[string]any{"sync_reads": len(ridOp), "sync_fails_by_itself": syncErr != nil, "mutating_ops_on_complete_view": fullMut,
+		"complete_view_error": fmt.Sprint(fullErr), "fault_kinds": kinds, "sample_runs": obs, "view": len(metas), "partial": len(partial),
+		"cleaned": len(deleted), "gc_marked": len(gcMarked)}
 	c.Class = fmt.Sprintf("%s/selfail=%v/cleaner=%v", in.Lister, syncErr != nil, in.Cleaner)
-	c.Nontrivial = fullMut > 0 && len(ks) > 0
-	c.Coq = common.App("CSync", baseTrace, common.Bool(syncErr != nil), common.Nat(baseMut), common.Nat(fullMut), common.List(runs))
+	c.Nontrivial = fullMut > 0 && len(rids) > 0
+	c.Coq = common.App("CSync2", common.Bool(in.Lister == "concurrent"), common.Bool(in.Cleaner), sc.coq(), baseTrace,
+		sc.idList(metas), sc.idList(partial), common.Bool(syncErr != nil), common.Nat(baseMut),
+		sc.idList(deleted), sc.idList(gcMarked), common.Nat(fullMut), common.List(runs))
 	return c, nil
+}
+
+func hasObjects(bkt objstore.Bucket, dir string) (bool, error) {
+	n := 0
+	err := bkt.Iter(context.Background(), dir, func(string) error { n++; return nil }, objstore.WithRecursiveIter())
+	return n > 0, err
 }
 
 func gen(r *rand.Rand, tier string, n int) []any {
